@@ -215,7 +215,12 @@ def _scope_functions(prog, pp):
     for q in pp.stateful | pp.transient:
         cls = prog.classes[q]
         fns |= {m.qual for m in cls.methods.values()} | {m.qual for m in cls.setters.values()}
-    return {q for q in fns if prog.functions[q].parent is None}
+    # an Environment may be created by the caller, passed as env= and reused for several designs: its methods must not
+    # change it in place either
+    for cq in ("environment.Environment", "environment.VarLookupDict"):
+        cls = prog.cls(cq)
+        fns |= {m.qual for m in cls.methods.values() if m.name != "__init__"}
+    return {q for q in fns if q in prog.functions and prog.functions[q].parent is None}
 
 
 def r7_2(prog, rep, pp):
